@@ -379,6 +379,12 @@ func (x *Exec) call(fr *Frame, st *State, site ssa.CallInstruction, callee *ssa.
 	if callee != nil && callee.Blocks != nil && callee.Pkg == x.P.Pkg && x.C.Inline(callee) {
 		return x.inline(fr, st, site, callee, fnTerm, args)
 	}
+	siteT := mk("site", fr.ctx+"/"+siteID(fr, site), nil, x.curMark())
+	for _, a := range args {
+		if a.Op == "alloc" || a.Op == "field" || a.Op == "index" {
+			x.havoc(st, a, siteT)
+		}
+	}
 	return []CallOut{{St: st, Val: x.opaqueResult(fr, site, callee, fnTerm, args)}}
 }
 
